@@ -24,7 +24,8 @@ def main(argv):
         return 2
     chk = core.Check(pid, tier, seed)
     try:
-        chk.proof = core.prove(pid, translate=getattr(mod, "USES_TRANSLATOR", False))
+        chk.proof = core.prove(pid, translate=getattr(mod, "USES_TRANSLATOR", False),
+                               prefixes=getattr(mod, "ANCHOR_PREFIX", ()))
         if tier == "thorough":
             core.leancheck(chk)
         mod.run(chk)
